@@ -953,9 +953,9 @@ func genProbe(r *hx.Rand) probeInput {
 // ----------------------------------------------------------------------- gen
 
 func gen(r *hx.Rand, tier string) []json.RawMessage {
-	nCanon, nMut, nTamper, nProbe := 36, 2, 2, 500
+	nCanon, nMut, nTamper, nProbe := 24, 2, 2, 300
 	if tier == "thorough" {
-		nCanon, nMut, nTamper, nProbe = 700, 40, 30, 20000
+		nCanon, nMut, nTamper, nProbe = 300, 15, 12, 5000
 	}
 	var out []json.RawMessage
 	addSim := func(s simInput) { out = append(out, hx.J(input{Sim: &s})) }
